@@ -13,10 +13,11 @@
 # limitations under the License.
 
 
+import jax.numpy as jnp
+
 from genjax._src.core.compiler.interpreters.incremental import (
     Diff,
     NoChange,
-    UnknownChange,
 )
 from genjax._src.core.compiler.staging import multi_switch, tree_choose
 from genjax._src.core.generative import (
@@ -43,6 +44,14 @@ from genjax._src.core.typing import (
 
 R = TypeVar("R")
 
+
+def _clamp_idx(idx: int | IntArray, n: int) -> int | IntArray:
+    # `jax.lax.switch` clamps an out-of-range index; use the same branch everywhere.
+    if isinstance(idx, int):
+        return min(max(idx, 0), n - 1)
+    return jnp.clip(idx, 0, n - 1)
+
+
 ################
 # Switch trace #
 ################
@@ -66,7 +75,7 @@ class SwitchTrace(Generic[R], Trace[R]):
         Note:
             This method assumes that the first argument passed to the Switch was the index used for branch selection.
         """
-        return self.get_args()[0]
+        return _clamp_idx(self.get_args()[0], len(self.subtraces))
 
     def get_args(self) -> tuple[Any, ...]:
         return self.args
@@ -165,6 +174,7 @@ class Switch(Generic[R], GenerativeFunction[R]):
     ) -> SwitchTrace[R]:
         idx, branch_args = args[0], args[1:]
         self._check_args_match_branches(branch_args)
+        idx = _clamp_idx(idx, len(self.branches))
 
         fs = list(f.simulate for f in self.branches)
         f_args = list((key, args) for args in branch_args)
@@ -182,6 +192,7 @@ class Switch(Generic[R], GenerativeFunction[R]):
     ) -> tuple[Score, R]:
         idx, branch_args = args[0], args[1:]
         self._check_args_match_branches(branch_args)
+        idx = _clamp_idx(idx, len(self.branches))
 
         fs = list(f.assess for f in self.branches)
         f_args = list((sample, args) for args in branch_args)
@@ -196,6 +207,7 @@ class Switch(Generic[R], GenerativeFunction[R]):
     ) -> tuple[SwitchTrace[R], Weight]:
         idx, branch_args = args[0], args[1:]
         self._check_args_match_branches(branch_args)
+        idx = _clamp_idx(idx, len(self.branches))
 
         fs = list(f.generate for f in self.branches)
         f_args = list((key, constraint, args) for args in branch_args)
@@ -268,9 +280,10 @@ class Switch(Generic[R], GenerativeFunction[R]):
         self._check_args_match_branches(branch_argdiffs)
 
         primals = Diff.tree_primal(argdiffs)
-        new_idx = primals[0]
+        new_idx = _clamp_idx(primals[0], len(self.branches))
+        idx_unchanged = Diff.tree_tangent(idx_diff) == NoChange
 
-        if Diff.tree_tangent(idx_diff) == NoChange:
+        if idx_unchanged:
             # If the index hasn't changed, perform edits on each branch.
             fs = list(f.edit for f in self.branches)
             f_args = list(
@@ -284,16 +297,30 @@ class Switch(Generic[R], GenerativeFunction[R]):
         rets = multi_switch(new_idx, fs, f_args)
 
         subtraces = list(t[0] for t in rets)
-        score, weight, retdiff = tree_choose(
-            new_idx, list((tr.get_score(), w, rd) for tr, w, rd, _ in rets)
+        # the branches' retdiffs may carry different (static) change tags: choose among the
+        # primals and re-tag the result.
+        score, weight, retval = tree_choose(
+            new_idx,
+            list((tr.get_score(), w, Diff.tree_primal(rd)) for tr, w, rd, _ in rets),
         )
-        retval: R = Diff.tree_primal(retdiff)
+        if idx_unchanged and all(
+            Diff.static_check_no_change(rd) for _, _, rd, _ in rets
+        ):
+            retdiff = Diff.no_change(retval)
+        else:
+            retdiff = Diff.unknown_change(retval)
 
-        if Diff.tree_tangent(idx_diff) == UnknownChange:
-            weight += score - trace.get_score()
-
-        # TODO: this is totally wrong, fix in future PR.
-        bwd_request: Update = rets[0][3]
+        if idx_unchanged:
+            bwd_request = Update(
+                ChoiceMap.switch(
+                    new_idx,
+                    (bwd.constraint for _, _, _, bwd in rets),  # pyright: ignore[reportAttributeAccessIssue]
+                )
+            )
+        else:
+            # the whole previous execution is replaced.
+            weight = score - trace.get_score()
+            bwd_request = Update(trace.get_choices())
 
         return (
             SwitchTrace(self, primals, subtraces, retval, score),
